@@ -8,10 +8,10 @@ func cfg(maxLoop, wall int) Config {
 
 // per-view length bounds for view types whose accessors loop over the input
 var viewMaxN = map[string][2]int{ // quick, thorough
-	"ICMP6RouterSolicitation":  {32, 40},
-	"ICMP6RouterAdvertisement": {32, 40},
+	"ICMP6RouterSolicitation":  {32, 39},
+	"ICMP6RouterAdvertisement": {32, 39},
 	"LLDP":                     {64, 1536},
-	"HopByHopExtensionHeader":  {14, 18},
+	"HopByHopExtensionHeader":  {14, 17},
 	"DHCP4":                    {244, 246},
 	"ICMP4Redirect":            {72, 264},
 }
